@@ -360,7 +360,16 @@ func (g *gen) pathNode(p string) *node {
 		if i < len(props)-1 {
 			s += ","
 		}
-		if g.r.Chance(1, 3) {
+		if g.r.Chance(1, 12) {
+			// an example that violates its own rule: the builder accepts the document, the
+			// schema is compiled lazily by the serialisers
+			g.feat("path-example-violates-rule")
+			s = fmt.Sprintf("  %q: 1", pr)
+			if i < len(props)-1 {
+				s += ","
+			}
+			s += " // {min: 5}"
+		} else if g.r.Chance(1, 3) {
 			s += " // {min: 0}"
 		}
 		ll = append(ll, s)
